@@ -152,6 +152,8 @@ def three_way(rep, drv, ops, label, fuel=4000, skip_ref_ops=()):
         flat_ops.append(op)
         if op[0] == 'query_load':
             flat_ops.append(('load-after-suspended-query',))
+        if op[0] == 'prebuilt':
+            flat_ops.append(('query-built-before-the-previous-operation',))
     for i, op in enumerate(flat_ops):
         r, f, c = norm(real[i]), norm(ref[i]), norm(comp[i])
         if 'oof' in f or 'oof' in c:
